@@ -1,2 +1,8 @@
 import TabulaModel.Util
+import TabulaModel.Props.C01
+import TabulaModel.Props.C04
+import TabulaModel.Props.C08
+import TabulaModel.Props.C15
 import TabulaModel.Props.C17
+import TabulaModel.Props.C18
+import TabulaModel.Props.C20
